@@ -245,3 +245,111 @@ func replay(args []string) error {
 		return w.Write(replayOne(id, steps))
 	})
 }
+
+// ---- several backends lose their connections at the same instant
+
+func init() { cli.Register("c07-multi", multi) }
+
+type multiResult struct {
+	Round    int      `json:"round"`
+	Nodes    int      `json:"nodes"`
+	Fault    string   `json:"fault"`
+	Failing  []string `json:"failing"` // nodes whose keys still fail after the fault although they are reachable
+	MaxConns int      `json:"maxConns"`
+	Err      string   `json:"err,omitempty"`
+}
+
+func multi(args []string) error {
+	fs := flag.NewFlagSet("c07-multi", flag.ContinueOnError)
+	out := fs.String("out", "", "results (ndjson)")
+	rounds := fs.Int("rounds", 6, "rounds")
+	nodes := fs.Int("nodes", 8, "masters")
+	if err := fs.Parse(args); err != nil {
+		return err
+	}
+	predis.VerifSetSlotsRefreshTimers(time.Hour, 20*time.Millisecond)
+	w, err := cli.NewNDJSONWriter(*out)
+	if err != nil {
+		return err
+	}
+	defer w.Close()
+	cl, err := simredis.NewCluster(*nodes, 0)
+	if err != nil {
+		return err
+	}
+	defer cl.Close()
+	px, err := sut.StartRedis(sut.RedisOpts{}, cl.Addrs())
+	if err != nil {
+		return err
+	}
+	defer sut.StopWithin(px.P, 5*time.Second)
+	sut.WaitRefresh(px.Name, 3*time.Second)
+	c, err := sut.Dial(px.Addr)
+	if err != nil {
+		return err
+	}
+	defer c.Close()
+	keys := make([]string, *nodes)
+	for i := range keys {
+		keys[i] = cl.KeyFor(i, "m-")
+	}
+	touch := func() []string {
+		var failing []string
+		for i, k := range keys {
+			ok := false
+			var last string
+			for try := 0; try < 4 && !ok; try++ {
+				v, err := c.Do(3*time.Second, "get", k)
+				if err != nil {
+					last = err.Error()
+					break
+				}
+				if !v.IsErr() {
+					ok = true
+				} else {
+					last = v.String()
+					time.Sleep(15 * time.Millisecond)
+				}
+			}
+			if !ok {
+				failing = append(failing, fmt.Sprintf("node%d: %s", i, last))
+			}
+		}
+		return failing
+	}
+	if f := touch(); len(f) > 0 {
+		return fmt.Errorf("warm-up failed: %v", f)
+	}
+	for r := 1; r <= *rounds; r++ {
+		res := multiResult{Round: r, Nodes: *nodes}
+		var wg sync.WaitGroup
+		start := make(chan struct{})
+		switch r % 2 {
+		case 1:
+			res.Fault = "all-connections-reset-at-once"
+			for _, n := range cl.Nodes {
+				wg.Add(1)
+				go func(n *simredis.Node) { defer wg.Done(); <-start; n.ResetConns(true) }(n)
+			}
+		default:
+			res.Fault = "all-backends-restart-at-once"
+			for _, n := range cl.Nodes {
+				wg.Add(1)
+				go func(n *simredis.Node) { defer wg.Done(); <-start; n.Shutdown(); n.Restart() }(n)
+			}
+		}
+		close(start)
+		wg.Wait()
+		time.Sleep(40 * time.Millisecond)
+		res.Failing = touch()
+		for _, n := range cl.Nodes {
+			if cnt := n.ConnCount(); cnt > res.MaxConns {
+				res.MaxConns = cnt
+			}
+		}
+		if err := w.Write(res); err != nil {
+			return err
+		}
+	}
+	return nil
+}
